@@ -105,16 +105,21 @@ def refObsS (inp : Input) (j r : Nat) : Obs :=
     else inp.vF.at i j
   ⟨[(colGamma, inp.invK r j)] ++ att ++ [(inp.colC j, -1)] ++ ta, inp.iF.at i j, v⟩
 
+/-- coefficient of the loss of splice `a` in the matching row of pair `pi`: `[x_tail ≥ s_a] − [x_head ≥ s_a]` -/
+def matCf (inp : Input) (pi a : Nat) : Rat :=
+  b2r (decide (inp.xAt (inp.pairs.getD pi (0, 0)).2 ≥ inp.trans.getD a 0))
+    - b2r (decide (inp.xAt (inp.pairs.getD pi (0, 0)).1 ≥ inp.trans.getD a 0))
+
 /-- the matching row of pair `pi` at time `j` of the single-ended fit -/
 def matObsS (inp : Input) (j pi : Nat) : Obs :=
-  let (h, t) := inp.pairs.getD pi (0, 0)
+  let h := (inp.pairs.getD pi (0, 0)).1
+  let t := (inp.pairs.getD pi (0, 0)).2
   let ta := (List.range inp.nta).filterMap fun a =>
-    let s := inp.trans.getD a 0
-    let cf := b2r (decide (inp.xAt t ≥ s)) - b2r (decide (inp.xAt h ≥ s))
-    if cf = 0 then none else some (inp.colTa a j, cf)
+    if inp.matCf pi a = 0 then none else some (inp.colTa a j, inp.matCf pi a)
   let v := if inp.codeWeightOrder then
       let flat := j * inp.pairs.size + pi
-      let (h', t') := inp.pairs.getD (flat / inp.nt) (0, 0)
+      let h' := (inp.pairs.getD (flat / inp.nt) (0, 0)).1
+      let t' := (inp.pairs.getD (flat / inp.nt) (0, 0)).2
       inp.vF.at h' (flat % inp.nt) + inp.vF.at t' (flat % inp.nt)
     else inp.vF.at h j + inp.vF.at t j
   ⟨[(colDalpha, inp.xAt t - inp.xAt h)] ++ ta, inp.iF.at h j - inp.iF.at t j, v⟩
